@@ -24,18 +24,33 @@ def parse : List String → Option Op
   | ["staleerr", _] => some .env
   | _ => none
 
-def showOpt : Option (List UInt8) → String
-  | some b => "ok " ++ hexOfBytes b
-  | none => "fail"
+/-- the tokens of a call's outcome: `ok <value>` / `fail` (the L2 part of `pmodel dh`'s line; also what the
+implementation prints as its L1 part — the value it computed — which is what `pmodel dhmon` reads) -/
+def optToks : Option (List UInt8) → List String
+  | some b => ["ok", hexOfBytes b]
+  | none => ["fail"]
 
-def render : Out → String
-  | .failed => "fail | fail"
-  | .value spec model => s!"ok {hexOfBytes spec} | {showOpt model}"
-  | .generated p spec model => s!"ok {hexOfBytes p} {hexOfBytes spec} | {showOpt model}"
-  | .sanity l1 l2 =>
-      s!"{if l1 then "0" else "-1"} | {match l2 with | some true => "0" | some false => "-1" | none => "?"}"
-  | .g14 => "g14 rfc3526"
-  | .env => "env"
+def showOpt (m : Option (List UInt8)) : String := " ".intercalate (optToks m)
+
+/-- **the tokens of the L1 part** of a line (`Proofs/DhAns.lean`: `Dhmon.parseAns (l1Toks o) = o.ans`) -/
+def l1Toks : Out → List String
+  | .failed => ["fail"]
+  | .value spec _ => ["ok", hexOfBytes spec]
+  | .generated p spec _ => ["ok", hexOfBytes p, hexOfBytes spec]
+  | .sanity l1 _ => [if l1 then "0" else "-1"]
+  | .g14 => ["g14", "rfc3526"]
+  | .env => ["env"]
+
+/-- the L2 part of a line (after ` | `), if it has one -/
+def l2Str : Out → Option String
+  | .failed => some "fail"
+  | .value _ model | .generated _ _ model => some (showOpt model)
+  | .sanity _ l2 => some (match l2 with | some true => "0" | some false => "-1" | none => "?")
+  | .g14 | .env => none
+
+/-- the printed line: the L1 tokens joined by single spaces, then ` | ` and the L2 part -/
+def render (o : Out) : String :=
+  " ".intercalate (l1Toks o) ++ (match l2Str o with | some s => " | " ++ s | none => "")
 
 def step (_ : Unit) (toks : List String) : Unit × String :=
   match parse toks with
